@@ -18,11 +18,19 @@ type ftree struct {
 	label     string // and / or nodes: what the caller left in Field (ignored by the logic)
 }
 
-func (f *ftree) goFilter() *jsonapi.Filter {
+// goFilter builds the library's filter; a node of the tree that occurs twice (the same
+// *ftree) becomes ONE *jsonapi.Filter listed twice.
+func (f *ftree) goFilter() *jsonapi.Filter { return f.goFilterMemo(map[*ftree]*jsonapi.Filter{}) }
+
+func (f *ftree) goFilterMemo(memo map[*ftree]*jsonapi.Filter) (out *jsonapi.Filter) {
+	if g, ok := memo[f]; ok {
+		return g
+	}
+	defer func() { memo[f] = out }()
 	if f.op == "and" || f.op == "or" {
 		var subs []*jsonapi.Filter
 		for _, s := range f.subs {
-			subs = append(subs, s.goFilter())
+			subs = append(subs, s.goFilterMemo(memo))
 		}
 		if subs == nil {
 			subs = []*jsonapi.Filter{}
@@ -382,6 +390,14 @@ func runC10(c *ctx) {
 			{op: "and", label: lab, subs: []*ftree{yes, no}}, {op: "or", label: lab, subs: []*ftree{no}}} {
 			c10Case(c, all, []setOp{{"int", 5}}, f, "labelled-logical-node")
 		}
+	}
+	// one node used twice: under two parents, and listed twice under one
+	third := &ftree{field: "string", op: "=", val: "zz"}
+	for _, f := range []*ftree{
+		{op: "or", subs: []*ftree{{op: "and", subs: []*ftree{yes, no}}, {op: "and", subs: []*ftree{yes, yes}}}},
+		{op: "and", subs: []*ftree{yes, yes}}, {op: "or", subs: []*ftree{no, no, yes, yes}},
+		{op: "and", subs: []*ftree{{op: "or", subs: []*ftree{third, yes}}, {op: "or", subs: []*ftree{yes, third}}}}} {
+		c10Case(c, all, []setOp{{"int", 5}}, f, "shared-node")
 	}
 	for _, f := range []*ftree{zero, {op: "or", subs: []*ftree{zero}}, {op: "and", subs: []*ftree{zero}}, {op: "and", subs: []*ftree{yes, zero}}, {op: "or", subs: []*ftree{no, zero}}} {
 		c10Case(c, all, []setOp{{"int", 5}}, f, "zero-filter")
